@@ -12,13 +12,15 @@ HARNESSES = [
      "flags": ["-O1", "-DTETL_ENABLE_CONTRACT_CHECKS=1", "-fsanitize=undefined", "-fno-sanitize-recover=all"]},
 ]
 
-RULE = ("8-bit types: every value (unary) and every pair (binary; every word x every position 0..255 for the "
+RULE = ("8-bit types: every value (unary) and every pair (binary, same-type pairs and (i8,u8) for cmp; mixed-type pairs of gcd/lcm "
+        "and the mirrored (u8,i8) cmp pair are thinned in the quick tier; every word x every position 0..255 for the "
         "single-bit functions; every value x every count in [-130,130] for rotl/rotr); 16-bit types: every value (unary); "
         "binary: boundary values (2 per argument position in quick, ~25 in thorough) x a sample of the 256-value chunks of the other "
         "argument (3 chunks at each end, 5 around zero/the middle, every 6th in between); 32/64-bit: every single bit, all-ones-below-bit, +-1 neighbours, type limits "
         "(and their cross product for binary functions) plus seeded random values/pairs; rotation counts [-130,130] and "
         "the int limits; all 64 (T,U) pairs of the eight fixed-width types for cmp_*/in_range/saturate_cast/gcd/lcm over the "
-        "limits+-1 of every type; 'row' cases evaluate 256 (or 261) inputs per line; "
+        "limits+-1 of every type; 'row' cases evaluate 256 (or 261) inputs per line; 'ctbits' = the <bit> functions on a 10-value table per unsigned type "
+        "evaluated by the constant evaluator (constexpr table in the harness); "
         "non-trivial = distinct case line whose impl leg is not unknown-op/crash")
 
 TRUSTED_BASE = ["reference leg: libstdc++ 12 <bit>/<numeric>/<utility> (std::popcount ... std::midpoint, std::cmp_*, std::in_range), "
@@ -166,12 +168,21 @@ def gen(tier, rng):
             out.append(f"row 1 {hi} idiv {t} {x}")
             for t2 in ("i8", "u8"):
                 l2, h2 = lim(t2)
-                out.append(f"row {l2} {h2} cmp {t} {t2} {x}")
-                if t2 == t or t2 == "u8" or not quick:
+                # quick: (i8,i8), (u8,u8) and the mixed pair (i8,u8) in full; the mirrored mixed pair (u8,i8) for
+                # every 4th x (cmp_greater(t,u) = cmp_less(u,t) is already part of every cmp case)
+                if not quick or not (t == "u8" and t2 == "i8") or x % 4 == 0:
+                    out.append(f"row {l2} {h2} cmp {t} {t2} {x}")
+                # gcd / lcm: same-type pairs in full; the mixed pair (i8,u8) for every 2nd x in quick, (u8,i8) thorough only
+                if t2 == t or not quick or (t2 == "u8" and x % 2 == 0):
                     out.append(f"row {l2} {h2} gcd {t} {t2} {x}")
                     out.append(f"row {l2} {h2} lcm {t} {t2} {x}")
         for to in FIXED:
             rows(out, lo, hi, f"conv {to} {t}")
+
+    # constant-evaluated table (must list exactly ct_bits<T>::vals of harness.cpp)
+    for t in UNS:
+        mx = lim(t)[1]
+        out.append(f"ctbits {t} " + " ".join(str(v) for v in (0, 1, 2, 3, 5, mx // 3, mx // 2, mx // 2 + 1, mx - 1, mx)))
 
     # ------------------------------------------------------------------ 16-bit: every value (unary)
     rows(out, 0, 65535, "bits u16")
